@@ -246,6 +246,14 @@ def main():
         if o["ok"] or o.get("inconclusive"):
             continue
         fl = o.get("failures") or [{"msg": o.get("msg", "failed"), "source": ""}]
+        # a contract clause may be marked `clause-props=Cxx,Cyy` in the template: its failure concerns only those properties
+        # (e.g. a purely functional clause of a function that also serves the safety property C04)
+        fl = [f for f in fl if not (re.search(r"clause-props=([A-Z0-9,]+)", f.get("source", "") or "")
+                                    and prop not in re.search(r"clause-props=([A-Z0-9,]+)", f.get("source", "")).group(1).split(","))]
+        if not fl:
+            o["ok"] = True
+            o["ok_note"] = "only clauses marked for other properties fail"
+            continue
         unmatched = []
         for f in fl:
             hit = None
